@@ -427,7 +427,7 @@ func genC09(ctx *hx.Ctx, emit func(hx.Case)) {
 	// ---- random stream
 	N := 3000
 	if ctx.Thorough() {
-		N = 120000
+		N = 90000
 	}
 	r := ctx.Rng
 	for i := 0; i < N; i++ {
